@@ -1,0 +1,14 @@
+//go:build verif
+// +build verif
+
+package crypto
+
+// VerifPkcs5Padding is pkcs5Padding (verification hook for property C33).
+func VerifPkcs5Padding(data []byte, blockSize int) []byte {
+	return pkcs5Padding(data, blockSize)
+}
+
+// VerifPkcs5UnPadding is pkcs5UnPadding (verification hook for property C33).
+func VerifPkcs5UnPadding(data []byte) ([]byte, error) {
+	return pkcs5UnPadding(data)
+}
